@@ -8,9 +8,9 @@ sys.path.insert(0, os.path.dirname(os.path.abspath(__file__)))
 from framework import REPO
 
 TIE = ["Nsq.Tie.ToolsToFile", "Nsq.Tie.ToolsToFileFn"]
-PROPS = ["Nsq.Props.C19", "Nsq.Props.C19Name", "Nsq.Props.C19Disc"]
+PROPS = ["Nsq.Props.C19", "Nsq.Props.C19Name", "Nsq.Props.C19Disc", "Nsq.Props.C19Ops"]
 CORPUS = os.path.join(fw.ROOT, "corpus", "C19")
-HARNESS = ["e8/tofile_test.go", "e8/tofile_names_test.go", "e8/tofile_disc_test.go", "e8/stub_nsqd.go"]
+HARNESS = ["e8/tofile_test.go", "e8/tofile_names_test.go", "e8/tofile_disc_test.go", "e8/tofile_xdev_test.go", "e8/tofile_giveup_test.go", "e8/stub_nsqd.go"]
 
 
 def build_pair(ctx):
@@ -214,25 +214,10 @@ def run(ctx):
     if parent and not ctx.replay_in:
         names_leg(ctx, parent, corr_broken)
         disc_leg(ctx, parent, corr_broken)
-    # known finding replay: the tool as shipped (router behind go-nsq's handlerLoop, max_attempts 5)
+        xdev_leg(ctx, parent, corr_broken)
+    # known finding replay on the REAL binary: the tool as shipped (router behind go-nsq's handlerLoop)
     if parent and not ctx.replay_in:
-        rc, log = ctx.run_cmd([parent, "-test.run", "^TestVerifToFileGiveUp$", "-test.count=1"], timeout=120)
-        rows = [dict(kv.split("=") for kv in l.split()[1:]) for l in log.splitlines() if l.startswith("GIVEUP ")]
-        if len(rows) < 4:
-            ctx.log("give-up replay did not run:\n" + log[-800:])
-            corr_broken.append("give-up replay (TestVerifToFileGiveUp)")
-        ctx.corr["give_up"] = rows
-        for r in rows:
-            mx, att = int(r["max_attempts"]), int(r["attempts"])
-            ctx.evaluations += 1
-            model_gives_up = mx > 0 and att > mx      # Nsq.Model.ToFile.shouldFail
-            observed = (r["response"] == "FIN" and r["written_at_response"] == "false")
-            if observed != model_gives_up or r["response"] != "FIN":
-                corr_broken.append("correspondence give-up rule attempts=%d: %s" % (att, r))
-            if observed:
-                ctx.violation("gives-up-after-max-attempts",
-                              "nsq_to_file finished a message (attempts=%d, max_attempts=%d) that it never wrote" % (att, mx),
-                              "tool=nsq_to_file max_attempts=%d attempts=%d\n" % (mx, att))
+        giveup_leg(ctx, parent, corr_broken)
     # end-to-end leg (thorough): real binaries, real nsqd, signals at random instants, strace
     if ctx.thorough() and not ctx.replay_in:
         import c19_e2e
@@ -366,6 +351,89 @@ def disc_leg(ctx, parent, corr_broken):
             ctx.violation("tofile-disc:term", "nsq_to_file TopicDiscoverer after SIGTERM: " + a + " (model: " + b + ")", ops[idx] + "\n")
     for o, i in list(zip(ops, impl))[1:4]:
         ctx.add_sample({"op": o[:160], "impl": i[:160]})
+
+
+def xdev_leg(ctx, parent, corr_broken):
+    """work dir on another device (link fails with EXDEV → os.Exit(1), fail-stop after the FINs, nothing moved or
+    lost, restart keeps the stranded file) and every --gzip-level 1..9 (decodable output): direct oracles on the
+    real router in child processes."""
+    out = os.path.join(ctx.work, "tf_xdev")
+    os.makedirs(out, exist_ok=True)
+    rc, log = ctx.run_cmd([parent, "-test.run", "^TestVerifToFileXdev$", "-test.count=1", "-test.timeout=0"], timeout=600,
+                          env={"VERIF_SEED": ctx.seed, "VERIF_OUT": out})
+    if rc != 0 or "ORACLE-DONE xdev" not in log:
+        ctx.log("xdev harness failed:\n" + log[-1500:])
+        corr_broken.append("xdev harness exit %s" % rc)
+        return
+    ctx.corr["xdev_gzip_level"] = [l for l in log.splitlines() if l.startswith(("XDEV", "ORACLE-DONE xdev"))]
+    if "XDEV available=false" in log:
+        ctx.log("note: /dev/shm is not a separate file system here; the cross-device leg was skipped")
+    for l in log.splitlines():
+        if l.startswith("ORACLE-FAIL xdev"):
+            what = l[len("ORACLE-FAIL xdev "):]
+            ctx.violation("tofile-xdev:" + "-".join(re.sub(r"[^a-z ]", "", re.sub(r'"[^"]*"', "", what.lower())).split()[:6]),
+                          "nsq_to_file (work dir on another device / gzip level): " + what, l + "\n")
+    m = re.search(r"ORACLE-DONE xdev cases=(\d+)", log)
+    for i in range(int(m.group(1)) if m else 0):
+        ctx.count_case("xdev-case-%d" % i, nontrivial=True)
+        ctx.evaluations += 1
+
+
+def default_max_attempts():
+    """what the regenerated Gen module says main() runs the consumer with (go-nsq default unless main assigns it)"""
+    try:
+        txt = open(os.path.join(fw.LEAN, "Nsq", "Gen", "ToolsToFileFn.lean")).read()
+    except OSError:
+        return None
+    lib = re.search(r"def toFileMaxAttempts_lib : Nat := (\d+)", txt)
+    tool = re.search(r"def toFileMaxAttempts_tool : Option Nat := (none|some (\d+))", txt)
+    if not lib or not tool:
+        return None
+    return int(tool.group(2)) if tool.group(2) is not None else int(lib.group(1))
+
+
+def giveup_leg(ctx, parent, corr_broken):
+    """Finding gives-up-after-max-attempts, replayed on the real nsq_to_file binary built from the tree under
+    check. Model: Nsq.Model.ToFile.shouldFail with max_attempts = the regenerated default of main()
+    (Nsq.Gen.ToolsToFileFn.toFileMaxAttempts) or the operator's --consumer-opt. Decision theorem:
+    Props.C19Ops.tool_safe_iff (safe iff max_attempts = 0). On a tree with fix F18 (main sets cfg.MaxAttempts = 0)
+    the default cases must all be written before FIN; without it the known finding reproduces."""
+    binp = os.path.join(fw.BUILD, "bin", "nsq_to_file_%d" % os.getpid())
+    rc, out = fw.sh(["go", "build", "-o", binp, "./apps/nsq_to_file"], cwd=REPO, timeout=900)
+    if rc != 0:
+        ctx.log("go build apps/nsq_to_file failed:\n" + out[-800:])
+        corr_broken.append("nsq_to_file binary does not build")
+        return
+    ctx._bins = getattr(ctx, "_bins", []) + [binp]
+    dmx = default_max_attempts()
+    if dmx is None:
+        corr_broken.append("regenerated default max_attempts not found (Gen/ToolsToFileFn.lean)")
+        return
+    rc, log = ctx.run_cmd([parent, "-test.run", "^TestVerifToFileGiveUpBin$", "-test.count=1", "-test.timeout=0"], timeout=400,
+                          env={"VF_E8_TOFILE_BIN": binp})
+    rows = [dict(kv.split("=", 1) for kv in l.split()[1:]) for l in log.splitlines() if l.startswith("GIVEUPBIN ")]
+    if len(rows) < 9:
+        ctx.log("give-up replay did not run completely:\n" + log[-800:])
+        corr_broken.append("give-up replay (TestVerifToFileGiveUpBin)")
+    ctx.corr["give_up"] = {"default_max_attempts_of_main": dmx, "rows": rows}
+    for r in rows:
+        att = int(r["attempts"])
+        mx = dmx if r["cli"] == "default" else int(r["cli"].split(",")[1])
+        ctx.evaluations += 1
+        ctx.count_case("giveup|%s|%d|%s" % (r["cli"], att, r["written_at_response"]), nontrivial=True)
+        model_gives_up = mx > 0 and att > mx      # Nsq.Model.ToFile.shouldFail
+        observed = (r["response"] == "FIN" and r["written_at_response"] == "false")
+        if observed != model_gives_up or r["response"] != "FIN":
+            corr_broken.append("correspondence give-up rule cli=%s attempts=%d: %s" % (r["cli"], att, r))
+        if observed and r["cli"] == "default":
+            if dmx == 0:
+                ctx.violation("gives-up-although-main-sets-max-attempts-0",
+                              "nsq_to_file finished a message (attempts=%d) that it never wrote although main() sets "
+                              "cfg.MaxAttempts = 0" % att, "tool=nsq_to_file cli=default attempts=%d\n" % att)
+            else:
+                ctx.violation("gives-up-after-max-attempts",
+                              "nsq_to_file finished a message (attempts=%d, max_attempts=%d) that it never wrote" % (att, mx),
+                              "tool=nsq_to_file max_attempts=%d attempts=%d\n" % (mx, att))
 
 
 def property_fails_on(impl, model):
